@@ -27,7 +27,9 @@ RULE = (
     "Hypothesis: for each documented precondition (" + ", ".join(KINDS) + ") a valid request built "
     "from the strategies of the other properties plus EXACTLY ONE violation (smallest margin and "
     "gross) at a generated ballot index / parameter; the unperturbed request and the accepted "
-    "boundary values (m = 1, m = n, L == k, Limited k == m, sums 1 +- 1e-10) must succeed.  Oracle: "
+    "boundary values (m = 1, m = n, L == k, Limited k == m, sums 1 +- 1e-10) must succeed; variants "
+    "that depend on history: the invalid score vector as the just-accepted list edited in place, "
+    "PluralityVeto's offending ballot with a twin carrying the complementary fraction.  Oracle: "
     "the documented exception type escapes and no rounds were recorded.  Non-trivial = the "
     "offending ballot is not the first, or the margin is the smallest one.  Distinct = SHA-1."
 )
